@@ -4,6 +4,7 @@ import (
 	"context"
 	"fmt"
 	"sync"
+	"sync/atomic"
 	"time"
 
 	"github.com/form3tech-oss/f1/v2/internal/metrics"
@@ -70,6 +71,18 @@ func init() {
 			for i := 0; i < na; i++ {
 				cs = append(cs, core.MkCase("C17", "aggregate", i, seed, c17AggParams{Seqs: per}))
 			}
+			// more workers than a config file's limits.concurrency (a users stage brings its own number of users): whatever
+			// f1 does about it, time an iteration spends waiting is not part of its duration
+			nq := 2
+			if tier == "thorough" {
+				nq = 8
+			}
+			for i := 0; i < nq; i++ {
+				cse := core.MkCase("C17", "queue", i, seed, map[string]int{"users": 4 + i%3, "limit": 1 + i%2, "body_ms": 60})
+				cse.Solo = true
+				cse.TimeoutMS = 60000
+				cs = append(cs, cse)
+			}
 			nl := 2
 			if tier == "thorough" {
 				nl = 8
@@ -79,9 +92,53 @@ func init() {
 			}
 			return cs
 		},
-		Kinds:  map[string]core.RunFunc{"measure": c17Measure, "aggregate": c17Aggregate, "largesum": c17LargeSum},
+		Kinds:  map[string]core.RunFunc{"measure": c17Measure, "aggregate": c17Aggregate, "largesum": c17LargeSum, "queue": c17Queue},
 		Floors: map[string]int64{"measured_iterations": 100, "sequences": 20000, "snapshots_checked": 50000, "empty_periods": 1000},
 	})
+}
+
+// c17Queue: a config-file users stage with more users than limits.concurrency, sleeping bodies that time themselves. The
+// recorded durations (progress statistics) add up to about what the bodies measured; the verdict is on sums over the
+// whole run (more than twice the bodies' own total plus 50 ms per iteration is not scheduling noise).
+func c17Queue(c *core.Case, o *core.Outcome) {
+	var pp map[string]int
+	c.Params(&pp)
+	users, limit, bodyMS := pp["users"], pp["limit"], pp["body_ms"]
+	n := users * 3
+	y := fmt.Sprintf("scenario: verifScenario\nlimits:\n  max-duration: 60s\n  concurrency: %d\n  max-iterations: %d\n  ignore-dropped: true\ndefault:\n  distribution: none\n  jitter: 0\nstages:\n- duration: 50s\n  mode: users\n  concurrency: %d\n", limit, n, users)
+	var sumBody atomic.Int64
+	var ran atomic.Int64
+	scenario := func(t *f1testing.T) f1testing.RunFn {
+		return func(t *f1testing.T) {
+			t0 := time.Now()
+			defer func() { sumBody.Add(int64(time.Since(t0))); ran.Add(1) }()
+			time.Sleep(time.Duration(bodyMS) * time.Millisecond)
+		}
+	}
+	ctx, cancel := context.WithCancel(context.Background())
+	defer cancel()
+	r := engine.Execute(ctx, engine.Spec{Mode: "file", YAML: y, IgnoreDropped: true}, engine.NewLog(), scenario, nil, nil)
+	if r.NewErr != nil {
+		o.Inconc("harness: cannot build run: %v", r.NewErr)
+		return
+	}
+	desc := fmt.Sprintf("config file: limits.concurrency %d, users stage with %d users, %d iterations of %d ms", limit, users, n, bodyMS)
+	sn := r.Result.Snapshot()
+	if int(sn.SuccessfulIterationDurations.Count) != int(ran.Load()) || ran.Load() == 0 {
+		o.Inconc("recorded %d iterations, %d bodies ran (%s)", sn.SuccessfulIterationDurations.Count, ran.Load(), desc)
+		return
+	}
+	recorded := time.Duration(sn.SuccessfulIterationDurations.Average) * time.Duration(sn.SuccessfulIterationDurations.Count)
+	body := time.Duration(sumBody.Load())
+	if recorded > 2*body+time.Duration(ran.Load())*50*time.Millisecond {
+		o.Violate("queue-included:"+desc, "the recorded durations add up to %v (mean %v, max %v), the bodies measured %v in total by their own clocks: the recorded durations include time spent waiting (%s)", recorded, sn.SuccessfulIterationDurations.Average, sn.SuccessfulIterationDurations.Max, body, desc)
+		return
+	}
+	o.Events = ran.Load()
+	o.AddObs("measured_iterations", ran.Load())
+	o.AddObs("queue_runs", 1)
+	o.Sig("queue:users=%d:limit=%d", users, limit)
+	o.Sample = map[string]any{"case": desc, "recorded_total": recorded.String(), "bodies_total": body.String()}
 }
 
 func c17Measure(c *core.Case, o *core.Outcome) {
@@ -121,6 +178,15 @@ func c17Measure(c *core.Case, o *core.Outcome) {
 				recs[i] = rec{body: b, fail: engine.Fails(kind), ran: true}
 				mu.Unlock()
 			}()
+			if id%3 == 0 {
+				// a piece of work handed to a helper goroutine guarded the way f1 guards the body (it passes and is over
+				// long before the body is): the body goes on afterwards and all of it is part of the duration
+				hd := make(chan struct{})
+				go func() {
+					defer f1testing.CheckResults(t, hd)
+				}()
+				<-hd
+			}
 			spin(time.Duration(p.BodyUS[i]) * time.Microsecond)
 			engine.Behave(t, kind)
 		}
